@@ -4,7 +4,7 @@ Real code under test (all in-process, real files in a temp dir, real archives, r
   loader.DocumentSetPreparator / Downloader / Decompressor, net.download / download_http / _download_http,
   io.decompress (+ library and external-tool paths), io.prepare_file_offset_table, io.skip_lines.
 Only `net._request` is replaced (by a function returning a real `urllib3.HTTPResponse` over a scripted
-socket-like body) and `io.is_executable` is forced (both decompression paths); `download_http`'s sleep is a no-op.
+socket-like body); PATH is a private directory with (stand-in) external decompressors or none; `download_http`'s sleep is a no-op.
 """
 import bz2
 import builtins
@@ -120,6 +120,33 @@ def _archive(fmt, content, member=DOC):
     return b.getvalue()
 
 
+def _damaged_payload(fmt, content):
+    """an archive of `content` whose payload has one damaged literal byte: decompressed length and line count stay the
+    same, only the archive's checksum detects it (gz: stored blocks; zst: raw literals).  None if not constructible."""
+    if len(content) < 64:
+        return None
+    try:
+        if fmt == "gz":
+            a = gzip.compress(content, compresslevel=0, mtime=0)
+        elif fmt == "zst":
+            import zstandard
+
+            a = zstandard.ZstdCompressor(level=-5, write_checksum=True).compress(content)
+        else:
+            return None
+        # find a letter of the payload in the second half of the archive and change it
+        probe = content[len(content) * 2 // 3: len(content) * 2 // 3 + 24]
+        pos = a.find(probe)
+        if pos < 0:
+            return None
+        for i in range(pos, pos + len(probe)):
+            if 97 <= a[i] <= 121:
+                return a[:i] + bytes([a[i] + 1]) + a[i + 1:]
+    except Exception:
+        return None
+    return None
+
+
 class World:
     """published document + archives + registered 'other' contents"""
 
@@ -154,6 +181,9 @@ class World:
                 5: _archive(fmt, half),  # valid archive of half the document
                 6: bytes(rng.getrandbits(8) for _ in range(len(a))),  # garbage of the published size
             }
+            dmg = _damaged_payload(fmt, self.doc)
+            if dmg is not None:
+                self.arch_others[fmt][7] = dmg  # payload damaged so that only the archive checksum can tell (same length, same lines)
         return self.arch[fmt]
 
     def doc_bytes(self, cid, size):
@@ -261,11 +291,19 @@ def linear_positions(content, ks):
 _BIN = {}
 
 
+EXT_MODES = ["off", "on", "fail", "failfull"]
+
+
 def tool_dir(mode):
-    """directory to prepend to PATH; mode 'on' or 'fail'"""
+    """a private PATH directory (the only PATH entry while the real code runs):
+      off       empty: no external tool -> io.is_executable() is false -> library path
+      on        pigz / pbzip2 / pzstd that work (real pigz if installed, else gzip; bzip2; zstd)
+      fail      tools that write a few bytes and exit 1 (e.g. unreadable input)
+      failfull  tools that write output of the full length and line count but with damaged bytes, then exit 1
+                (what a real tool does on a payload whose damage only the archive's checksum detects)"""
     if mode in _BIN:
         return _BIN[mode]
-    d = tempfile.mkdtemp(prefix="c14-bin-")
+    d = tempfile.mkdtemp(prefix="c14-bin-%s-" % mode)
     import atexit
 
     atexit.register(shutil.rmtree, d, True)
@@ -276,15 +314,22 @@ def tool_dir(mode):
             f.write("#!/bin/sh\n" + body)
         os.chmod(p, 0o755)
 
-    bzip2, zstd = shutil.which("bzip2"), shutil.which("zstd")
-    if mode == "on":
-        if bzip2:
-            script("pbzip2", 'for a; do last="$a"; done\nexec %s -d -k -c "$last"\n' % bzip2)
-        if zstd:
-            script("pzstd", 'for a; do last="$a"; done\nexec %s -f -d -c "$last"\n' % zstd)
-    else:
-        for n in ("pigz", "pbzip2", "pzstd"):
+    sysdirs = [x for x in os.environ.get("PATH", "").split(os.pathsep) if x and not x.startswith(tempfile.gettempdir())]
+
+    def which(n):
+        return shutil.which(n, path=os.pathsep.join(sysdirs))
+
+    real = {"pigz": which("pigz") or which("gzip"), "pbzip2": which("bzip2"), "pzstd": which("zstd")}
+    flags = {"pigz": "-d -k -c", "pbzip2": "-d -k -c", "pzstd": "-f -d -c"}
+    last = 'for a; do last="$a"; done\n'
+    for n in ("pigz", "pbzip2", "pzstd"):
+        if mode == "on" and real[n]:
+            script(n, last + 'exec %s %s "$last"\n' % (real[n], flags[n]))
+        elif mode == "fail":
             script(n, 'printf "PARTIAL"\necho "simulated failure" >&2\nexit 1\n')
+        elif mode == "failfull" and real[n]:
+            tr = which("tr")
+            script(n, last + '%s %s "$last" 2>/dev/null | %s "a-y0-8" "b-z1-9"\necho "%s: corrupted -- crc mismatch (simulated)" >&2\nexit 1\n' % (real[n], flags[n], tr, n))
     _BIN[mode] = d
     return d
 
@@ -292,15 +337,11 @@ def tool_dir(mode):
 def tool_available(fmt, mode):
     if mode == "off" or fmt not in MANUAL:
         return False
-    if mode == "fail":
-        return True
-    return shutil.which(MANUAL[fmt]) is not None or os.path.exists(os.path.join(tool_dir("on"), MANUAL[fmt]))
+    return os.path.exists(os.path.join(tool_dir(mode), MANUAL[fmt]))
 
 
 def path_env(mode):
-    if mode == "off":
-        return os.environ.get("PATH", "")
-    return tool_dir(mode) + os.pathsep + os.environ.get("PATH", "")
+    return tool_dir(mode)
 
 
 TOOL_ARGS = {"gz": ["pigz", "-d", "-k", "-c"], "bz2": ["pbzip2", "-d", "-k", "-m10000", "-c"], "zst": ["pzstd", "-f", "-d", "-c"]}
@@ -677,9 +718,8 @@ def run_real(W, fmt, spec, plan, ext, P, bundled=False):
     docs = make_docs(spec, fmt)
     kwd = dict(net.download_http.__kwdefaults__ or {})
     kwd["sleep"] = lambda s: None
-    force = (lambda name: True) if tool_available(fmt, ext) else (lambda name: False)
     with mock.patch.object(net, "_request", fake), mock.patch.object(net.download_http, "__kwdefaults__", kwd), \
-            mock.patch.object(io, "is_executable", force), mock.patch.dict(os.environ, {"PATH": path_env(ext)}), warnings.catch_warnings():
+            mock.patch.dict(os.environ, {"PATH": path_env(ext)}), warnings.catch_warnings():
         warnings.simplefilter("ignore")
         try:
             if bundled:
@@ -914,56 +954,86 @@ def forced_hypotheses_violated(W, fmt, spec, fs0):
     return v
 
 
-def oracle(ctx, W, fmt, spec, fs0, plan, res, obs0, obs, fake, P, bundled=False, origin="", code_made_off=False):
-    """the property's own statement on the implementation's observable output (independent of the model)"""
+def count_lines(content):
+    return content.count(b"\n") + (1 if content and not content.endswith(b"\n") else 0)
+
+
+def oracle(ctx, W, fmt, spec, fs0, plan, res, obs0, obs, fake, P, bundled=False, origin="", off_origin="generated"):
+    """the property's own statement on the implementation's observable output (independent of the model).
+    off_origin says who wrote the `.offset` that is on disk when this run starts: "generated" (initial state of the
+    scenario / not by the code under test), "run" (an earlier completed run of the code under test, returned or raised),
+    "crash-after-publish" (an earlier run of the code under test killed right after the table was published).
+    Every oracle class names ONE cause, so that a known finding cannot hide a violation with a different cause."""
     excluded = input_class(W, fmt, spec, fs0)
     forced = forced_hypotheses_violated(W, fmt, spec, fs0)
     other_body = any(a[0] == "resp" and a[3] != 0 for a in plan)
     if res in ("ok", "true"):
         doc = obs["doc"]
-        problems = []
+        problems, tbl_bad, cls = [], [], None
+        kept = obs0["off"] is not None and obs["off"] is not None and obs0["off"] == obs["off"]
+        doc_rewritten = obs0["doc"] != obs["doc"]
         if doc is None:
             problems.append("document file missing")
+            cls = "inside-hypotheses:unverified-document-accepted"
         else:
             if spec["usize"] is not None and len(doc[0]) != spec["usize"]:
                 problems.append(f"document has {len(doc[0])} bytes, track declares {spec['usize']}")
             if doc[0] != W.doc:
                 kind = "empty, not" if len(doc[0]) == 0 else "a strict prefix of" if W.doc.startswith(doc[0]) else "different from"
-                problems.append(f"document ({len(doc[0])} bytes) is {kind} the published content ({W.dsize} bytes)")
-        tbl_bad = []
-        if doc is not None:
+                problems.append(f"document ({len(doc[0])} bytes, {count_lines(doc[0])} lines) is {kind} the published content ({W.dsize} bytes)")
             tbl_bad = ["offset table missing"] if obs["off"] is None else table_positions_ok(P, doc[0], spec["nlines"])
-        if problems:
+        if problems and doc is not None:
             cls = "inside-hypotheses:unverified-document-accepted"
-            if doc is not None and W.doc.startswith(doc[0]) and spec["usize"] is None:
-                if spec["nlines"] != W.table(0, W.dsize)[1]:
+            ref = None
+            if fmt and doc_rewritten and obs["arch"] is not None:
+                # the document was written by this run's decompression: compare with the reference decompression
+                # (library, run independently of rally) of the archive that is on disk
+                ref = probe_decompress(W, fmt, obs["arch"][0], "off")
+            truthful_lines = spec["nlines"] == W.table(0, W.dsize)[1]
+            if ref is not None and (ref[0]["fails"] or ref[0]["open_fails"]):
+                cls = "corrupt-archive-accepted-reference-decompression-fails"
+                problems.append("the reference decompression of the archive on disk raises (corrupt archive), yet its output was accepted")
+            elif ref is not None and ref[1] is not None and ref[1] != doc[0]:
+                cls = "accepted-document-differs-from-reference-decompression"
+                problems.append("the accepted document is not what the reference decompression of the archive on disk yields")
+            elif W.doc.startswith(doc[0]) and spec["usize"] is None:
+                if not truthful_lines:
                     cls = None  # the track declares a wrong document count: untruthful declaration
                     ctx.count("excluded:untruthful-line-count")
-                else:
+                elif count_lines(doc[0]) == spec["nlines"]:
+                    # the only check there is (line count) cannot tell: torn inside the last line
                     cls = "partial-document-accepted-size-undeclared"
-            elif doc is not None and (excluded or other_body or not W.doc.startswith(doc[0])):
-                # other content of an accepted size / untruthful declaration: outside the property's quantifier (no checksums exist)
+                elif kept and off_origin == "generated":
+                    cls = None  # a table that was on disk before vouches for the document (the memo cannot be verified: no checksum)
+                    ctx.count("excluded:pre-existing-offset-table-vouches-for-document")
+                elif kept and off_origin == "run":
+                    cls = "line-count-check-skipped-table-left-by-failed-run"
+                elif kept and off_origin == "crash-after-publish":
+                    cls = "offset-table-published-before-line-count-verified"
+                else:
+                    cls = "inside-hypotheses:line-count-mismatch-accepted"
+            elif excluded or other_body or not W.doc.startswith(doc[0]):
+                # other content of an accepted size (pre-existing file, body of other content, sound archive of other content or
+                # damage that the reference decompression does not detect either) / untruthful declaration: no checksum can tell
                 cls = None
                 ctx.count("excluded:other-content-or-untruthful-size")
         elif tbl_bad:
-            kept = obs0["off"] is not None and obs["off"] is not None and obs0["off"] == obs["off"]
-            doc_rewritten = obs0["doc"] != obs["doc"]
-            if kept and fmt in TAR_FAMILY and doc_rewritten:
+            restored = doc is not None and doc[1] == BASE * 1_000_000_000
+            if kept and fmt in TAR_FAMILY and doc_rewritten and restored and obs["off"][1] >= doc[1]:
                 cls = "stale-offset-table-kept-because-tar-extraction-restores-mtime"
             elif kept and "offset-valid-by-mtime-but-not-this-documents-table" in forced:
-                if code_made_off:
+                if off_origin != "generated":
                     cls = "torn-offset-table-left-by-current-code"  # must not happen any more (atomic publish)
                 else:
                     cls = None  # a foreign table with a newer mtime that was on disk before: nothing can tell (no checksum)
                     ctx.count("excluded:foreign-offset-table-newer-than-document")
             else:
                 cls = "inside-hypotheses:offset-table-inconsistent"
-        else:
-            cls = None
         if cls:
             ctx.fail(cls, origin + "preparation returned normally but the data are not complete/verified",
-                     {"document": "published content, declared size", "offset table": "positions = linear skipping"},
+                     {"document": "published content = reference decompression of a sound archive, declared size and line count", "offset table": "positions = linear skipping"},
                      {"problems": problems, "table mismatches [line, with table, linear]": tbl_bad[:5], "result": res,
+                      "offset table on disk at start written by": off_origin if obs0["off"] is not None else None, "table kept": kept,
                       "forced hypotheses violated by the scenario": forced})
         if not forced and not excluded and not other_body:
             ctx.count("inside-all-hypotheses:returned-normally")
@@ -1005,7 +1075,7 @@ def final_name_check(ctx, W, fmt, declared, plan, before, after, origin=""):
             ctx.count("excluded:short-body-no-length-information")
 
 
-def execute(ctx, W, fmt, spec, fs0, plan, ext, bundled=False, root=None, base=BASE, origin="", sig_extra=(), code_made_off=False):
+def execute(ctx, W, fmt, spec, fs0, plan, ext, bundled=False, root=None, base=BASE, origin="", sig_extra=(), off_origin="generated"):
     """materialise (unless root is given), run model and real code, compare, apply the direct oracle"""
     own = root is None
     if own:
@@ -1025,7 +1095,7 @@ def execute(ctx, W, fmt, spec, fs0, plan, ext, bundled=False, root=None, base=BA
         compare_state(ctx, origin + "final-state", W, fmt, m["r"]["fs"], obs, fs0["clock"], t_run, base)
         if mres == "OUT-OF-FUEL":
             ctx.diff(origin + "fuel", "loop bound hit", res)
-        oracle(ctx, W, fmt, spec, fs0, plan, res, obs0, obs, fake, P, bundled, origin, code_made_off)
+        oracle(ctx, W, fmt, spec, fs0, plan, res, obs0, obs, fake, P, bundled, origin, off_origin)
         if obs["offtmp"] is not None and obs0["offtmp"] != obs["offtmp"]:
             ctx.fail("offset-tmp-left-behind", origin + "a finished preparation left <document>.offset.tmp behind", None, res)
         # request arguments the model relies on (urllib3 must enforce Content-Length)
@@ -1275,7 +1345,7 @@ def gen_scenario(rng, bundled=False, fmt_choice=None):
         fs["offtmp"] = gen_off(rng, W, fs["doc"], mt)
     fs["clock"] = max([clock[0]] + [f[-1] for f in (fs["doc"], fs["arch"], fs["tmp"], fs["off"], fs["offtmp"]) if f is not None]) + 1
     plan = gen_plan(rng, full_arch if fmt else W.doc, W.arch_others[fmt] if fmt else {1: W.doc_others[1], 2: W.doc_others[2]})
-    ext = rng.choice(["off", "on", "on", "fail"]) if fmt in MANUAL else "off"
+    ext = rng.choice(["off", "on", "on", "fail", "failfull", "failfull"]) if fmt in MANUAL else "off"
     return {"world": wid, "fmt": fmt, "spec": spec, "fs": fs, "plan": plan, "ext": ext, "bundled": bundled}
 
 
@@ -1296,38 +1366,139 @@ def run_scenario(ctx, case):
     execute(ctx, W, case["fmt"], case["spec"], case["fs"], [list(a) for a in case["plan"]], case["ext"], bundled=case.get("bundled", False))
 
 
-def gen_twice(ctx):
+def gen_history(ctx):
+    """several events on one data directory: runs (any outcome), runs killed at a file-system event, files replaced or
+    removed between runs; the last event is a run"""
     rng = ctx.rng
     for _ in range(ctx.budget):
         sc = gen_scenario(rng)
         W = world(sc["world"])
         fmt = sc["fmt"]
         full = W.archive(fmt) if fmt else W.doc
-        sc["plan2"] = [gen_attempt(rng, full, {}, "good")] if rng.random() < 0.7 else gen_plan(rng, full, W.arch_others[fmt] if fmt else {1: W.doc_others[1], 2: W.doc_others[2]})
+        others = W.arch_others[fmt] if fmt else {1: W.doc_others[1], 2: W.doc_others[2]}
+        if rng.random() < 0.5:
+            sc["spec"]["nlines"] = W.table(0, W.dsize)[1]  # truthful line count: the interesting half for the memo
+        steps = [{"op": "run", "plan": sc.pop("plan"), "ext": sc["ext"]}]
+        for _k in range(rng.choice([1, 1, 2, 3])):
+            r = rng.random()
+            plan = [gen_attempt(rng, full, {}, "good")] if rng.random() < 0.6 else gen_plan(rng, full, others)
+            if r < 0.55:
+                steps.append({"op": "run", "plan": plan, "ext": rng.choice(EXT_MODES) if fmt in MANUAL else "off"})
+            elif r < 0.80:
+                steps.append({"op": "crash", "plan": plan, "at_seed": rng.randrange(0, 10 ** 6), "frac": rng.choice([0.0, 0.5, 1.0, round(rng.random(), 3)])})
+            else:
+                slot = rng.choice(["doc", "arch"] if fmt else ["doc"])
+                f = gen_file(rng, W.doc if slot == "doc" else full, {1: W.doc_others[1], 2: W.doc_others[2]} if slot == "doc" else W.arch_others[fmt], None)
+                steps.append({"op": "replace", "slot": slot, "file": f})
+        if steps[-1]["op"] != "run":
+            steps.append({"op": "run", "plan": [gen_attempt(rng, full, {}, "good")], "ext": rng.choice(EXT_MODES) if fmt in MANUAL else "off"})
+        sc["steps"] = steps
         yield sc
 
 
-def run_twice(ctx, case):
-    """preparation, then preparation again on whatever the first run left (after a return *or* an error)"""
+def restamp(P, fs, base):
+    for slot in ("doc", "arch", "tmp", "off", "offtmp"):
+        if fs.get(slot) is not None and getattr(P, slot) and os.path.exists(getattr(P, slot)):
+            stamp(getattr(P, slot), fs[slot][-1], base)
+
+
+def crash_and_match(ctx, W, fmt, spec, fs0, plan, at_seed, frac, P, base, what):
+    """kills a real run at one of its file-system events; returns (matched model state, crash info) or (None, info)
+    when the scenario has no event, or (False, info) when the crash state is not an intermediate state of the model"""
+    dry = tempfile.mkdtemp(prefix="c14-dry-")
+    try:
+        Pd = Paths(os.path.join(dry, "d"), fmt)
+        shutil.copytree(P.root, Pd.root)  # copy2 keeps mtimes
+        _st, info = crash_child(W, fmt, spec, plan, Pd, 0, 0.0, False)
+    finally:
+        shutil.rmtree(dry, ignore_errors=True)
+    events = info.get("events", 0)
+    if events == 0:
+        return None, info
+    at = 1 + at_seed % events
+    t_run = time.time_ns() - 5_000_000_000
+    status, info = crash_child(W, fmt, spec, plan, P, at, frac, False)
+    if status != "crashed":
+        raise HarnessError(f"crash point {at}/{events} not reached: {info}")
+    obs = observe(P)
+    split = plan_split = None
+    if info.get("pos"):
+        if info["slot"] == "tmp":
+            plan_split = (info["requests"] - 1, info["pos"])
+        else:
+            split = (info["slot"], info["pos"])
+    m = call_model(ctx, W, fmt, spec, fs0, plan, "off", trace=True, split=split, plan_split=plan_split)
+    for st in [fs0] + m["r"]["trace"]:
+        if all(same_file(W, fmt, slot, st.get(slot), obs[slot], fs0["clock"], t_run) for slot in ("doc", "arch", "tmp", "off", "offtmp") if slot != "arch" or fmt):
+            return st, info
+    ctx.diff(what + "crash state is not an intermediate state of the model", {"trace_len": len(m["r"]["trace"]) + 1},
+             {"crash": info, "at": at, "events": events, "disk": {k: (None if v is None else [len(v[0]), v[1] >= t_run]) for k, v in obs.items()}})
+    return False, info
+
+
+def run_history(ctx, case):
     W = world(case["world"])
     fmt = case["fmt"]
     if fmt:
         W.archive(fmt)
-    root = tempfile.mkdtemp(prefix="c14-twice-")
+    spec = case["spec"]
+    root = tempfile.mkdtemp(prefix="c14-hist-")
     try:
-        P = Paths(root, fmt)
-        materialise(W, fmt, case["fs"], P)
-        m, res, _ = execute(ctx, W, fmt, case["spec"], case["fs"], [list(a) for a in case["plan"]], case["ext"], root=root)
-        if m["r"]["res"] != res:
-            return  # already reported; the model state is not what is on disk
-        fs1 = m["r"]["fs"]
-        base2 = BASE + 1_000_000
-        for slot in ("doc", "arch", "tmp", "off", "offtmp"):
-            if fs1.get(slot) is not None and getattr(P, slot) and os.path.exists(getattr(P, slot)):
-                stamp(getattr(P, slot), fs1[slot][-1], base2)
-        execute(ctx, W, fmt, case["spec"], fs1, [list(a) for a in case["plan2"]], case["ext"], root=root, base=base2,
-                origin="second run after [%s]: " % res.split(":")[0], sig_extra=("second", res.split("-status-")[0]),
-                code_made_off=fs1["off"] is not None and fs1["off"] != case["fs"]["off"])
+        P = Paths(os.path.join(root, "data"), fmt)
+        os.makedirs(P.root)
+        state = dict(case["fs"])
+        state.setdefault("offtmp", None)
+        base = BASE
+        materialise(W, fmt, state, P, base)
+        off_origin = "generated"
+        hist = []
+        for i, step in enumerate(case["steps"]):
+            tag = "step %d (%s after [%s]): " % (i + 1, step["op"], ", ".join(hist) or "initial state")
+            if step["op"] == "replace":
+                slot, f = step["slot"], step["file"]
+                path = getattr(P, slot)
+                if f is None:
+                    if os.path.exists(path):
+                        os.remove(path)
+                    state[slot] = None
+                else:
+                    data = W.doc_bytes(f[1], f[0]) if slot == "doc" else W.arch_bytes(fmt, f[1], f[0])
+                    with open(path, "wb") as fh:
+                        fh.write(data)
+                    state[slot] = [f[0], f[1] if f[0] else 0, state["clock"]]
+                    stamp(path, state["clock"], base)
+                state["clock"] += 1
+                hist.append("file replaced" if f is not None else "file removed")
+                continue
+            disk_off_before = observe(P)["off"]
+            plan = [list(a) for a in step["plan"]]
+            if step["op"] == "run":
+                m, res, _ = execute(ctx, W, fmt, spec, state, plan, step["ext"], root=P.root, base=base, origin=tag,
+                                    sig_extra=("history", tuple(hist[-2:])), off_origin=off_origin)
+                if m["r"]["res"] != res:
+                    return  # reported; the model state is no longer what is on disk
+                new = m["r"]["fs"]
+                hist.append(res.split(":")[0] if res != "ok" else "ok")
+                how = "run"
+            else:
+                st, info = crash_and_match(ctx, W, fmt, spec, state, plan, step["at_seed"], step["frac"], P, base, tag)
+                if st is None:
+                    hist.append("crash(no event)")
+                    continue
+                if st is False:
+                    return
+                new = dict(st)
+                hist.append("killed at %s%s" % (info.get("slot"), "/" + info["op"] if info.get("op") else ""))
+                how = "crash-after-publish" if (info.get("op") == "replace" and info.get("slot") == "off") else "crash"
+                ctx.count("history:crash-" + str(info.get("slot")) + ("-" + info["op"] if info.get("op") else ""))
+            new.setdefault("offtmp", None)
+            disk_off = observe(P)["off"]  # provenance follows what is really on disk, not what the model expects
+            if disk_off is not None and disk_off != disk_off_before:
+                off_origin = how
+            state = new
+            base += 1_000_000
+            restamp(P, state, base)
+        ctx.count("history:len-%d" % len(case["steps"]))
     finally:
         shutil.rmtree(root, ignore_errors=True)
 
@@ -1655,7 +1826,7 @@ def run_crash(ctx, case):
         plan2 = [list(a) for a in case["plan2"]]
         execute(ctx, W, fmt, spec, match, plan2, "off", root=P.root, base=base2, origin="after-crash: ",
                 sig_extra=("crash", info.get("slot"), bool(info.get("torn")), info.get("op", "")),
-                code_made_off=match["off"] is not None and match["off"] != fs0["off"])
+                off_origin="crash-after-publish" if (match["off"] is not None and match["off"] != fs0["off"]) else "generated")
     finally:
         shutil.rmtree(root, ignore_errors=True)
 
@@ -1663,7 +1834,7 @@ def run_crash(ctx, case):
 STREAMS = [
     Stream("prepare_states", gen_prepare, run_scenario, quick=960, thorough=20000, shards=16),
     Stream("prepare_bundled", gen_bundled, run_scenario, quick=240, thorough=4000, shards=8),
-    Stream("prepare_twice", gen_twice, run_twice, quick=480, thorough=10000, shards=16),
+    Stream("histories", gen_history, run_history, quick=640, thorough=12000, shards=16),
     Stream("net_download", gen_download, run_download, quick=1200, thorough=30000, shards=8),
     Stream("crash_then_rerun", gen_crash, run_crash, quick=480, thorough=10000, shards=16),
 ]
